@@ -439,10 +439,9 @@ class CallMixin(object):
                 if not (len(self.call_stack) and self.call_stack[-1][1] is args[0] and False):
                     raise OutOfReach('call of %s on static type %s is overridden in %s and has no interface contract'
                                      % (key, args[0].ty.args[0], ', '.join(over)))
-        if contract is not None and not contract.inline and key != self.top_key_active():
-            return self.apply_contract(st, contract, fn, args, kwargs, fr)
-        if contract is not None and key == self.top_key_active() and self.call_stack:
-            # recursive call of the function under verification: use its own contract (partial correctness)
+        if contract is not None and not contract.inline:
+            # (a call of the function under verification itself is a recursive call: its own contract is used -
+            # partial correctness)
             return self.apply_contract(st, contract, fn, args, kwargs, fr)
         return self.inline_function(st, fn, args, kwargs, fr, defcls)
 
